@@ -34,6 +34,7 @@ def main():
     ap.add_argument("--checks", default="")
     ap.add_argument("--tier", default="quick")
     ap.add_argument("--skip-confirm", action="store_true")
+    ap.add_argument("--isolated", action="store_true")
     a = ap.parse_args()
     mutdir = os.path.abspath(a.mutdir)
     wt = mutdir.split("/out/")[0]
@@ -65,17 +66,46 @@ def main():
         confirm["suite_passes_with_change"] = ("FAILED" not in out and "failed" not in out.replace("0 failed", ""))
         confirm["suite_tail"] = out[-600:]
         sh("git checkout -- . && git clean -fdq packages", cwd=wt)
-    # run the checks on /repo with the change applied
-    rc, out = sh("git status --porcelain", cwd="/repo")
-    if out.strip():
+    results = {}
+    if a.isolated:
+        # private mount namespace: a scratch worktree with the change applied is bound over /repo and a
+        # scratch copy of /verif over /verif, so /repo itself is never touched and several seeded
+        # changes can be checked at the same time; paths seen by cargo and the checks are unchanged
+        base = f"/tmp/sp/{a.seed_id}"
+        sh(f"git -C /repo worktree remove --force {base}/repo; rm -rf {base}; mkdir -p {base}")
+        rc, out = sh(f"git -C /repo worktree add --detach {base}/repo HEAD")
+        if rc != 0:
+            print("cannot create scratch worktree:", out)
+            return 2
+        rc, out = sh(f"git apply {patch}", cwd=f"{base}/repo")
+        if rc != 0:
+            print("patch does not apply:", out)
+            sh(f"git -C /repo worktree remove --force {base}/repo; rm -rf {base}")
+            return 2
+        sh(f"rsync -a --exclude .git --exclude work --exclude replays --exclude seeded {ROOT}/ {base}/verif/")
+        try:
+            for c in checks:
+                inner = (f"mount --bind {base}/repo /repo && mount --bind {base}/verif /verif && cd /verif && "
+                         f"./check {c} --tier {a.tier}")
+                rc, out = sh(f"unshare -m bash -c '{inner}'", timeout=14400)
+                vio = [ln for ln in out.splitlines() if ln.startswith("VIOLATION")]
+                first = out.splitlines()[out.splitlines().index(vio[0]) + 1][:400] if vio else ""
+                results[c] = {"exit": rc, "violations": len(vio), "first": first,
+                              "tail": out[-300:] if rc not in (0, 1) else ""}
+                print(f"  {a.seed_id} {c}: exit={rc} violations={len(vio)} {first[:160]}")
+        finally:
+            sh(f"git -C /repo worktree remove --force {base}/repo; rm -rf {base}")
+    else:
+      # run the checks on /repo with the change applied
+      rc, out = sh("git status --porcelain", cwd="/repo")
+      if out.strip():
         print("refusing: /repo has uncommitted changes:\n" + out)
         return 2
-    results = {}
-    rc, out = sh(f"git apply {patch}", cwd="/repo")
-    if rc != 0:
+      rc, out = sh(f"git apply {patch}", cwd="/repo")
+      if rc != 0:
         print("patch does not apply to /repo:", out)
         return 2
-    try:
+      try:
         for c in checks:
             rc, out = sh(f"./check {c} --tier {a.tier}", cwd=ROOT, timeout=7200)
             vio = [ln for ln in out.splitlines() if ln.startswith("VIOLATION")]
@@ -83,7 +113,7 @@ def main():
             results[c] = {"exit": rc, "violations": len(vio), "first": first,
                           "tail": out[-300:] if rc not in (0, 1) else ""}
             print(f"  {a.seed_id} {c}: exit={rc} violations={len(vio)} {first[:160]}")
-    finally:
+      finally:
         sh("git checkout -- .", cwd="/repo")
     dst = os.path.join(ROOT, "seeded", a.seed_id)
     os.makedirs(dst, exist_ok=True)
@@ -99,6 +129,9 @@ def main():
         "confirmed_in_scratch_worktree": confirm,
         "checks_run": {c: {k: v for k, v in r.items() if k != "tail" or v} for c, r in results.items()},
         "caught_by": [c for c, r in results.items() if r["exit"] == 1 and r["violations"] > 0],
+        "how_run": ("isolated: scratch worktree with the change bound over /repo in a private mount namespace"
+                    if a.isolated else "git -C /repo apply; ./check; git -C /repo checkout -- ."),
+        "tier": a.tier,
     }, open(os.path.join(dst, "meta.json"), "w"), indent=1)
     return 0
 
